@@ -1,11 +1,15 @@
 package main
 
 import (
+	"encoding/json"
 	"fmt"
 	"go/ast"
 	"go/constant"
 	"go/token"
 	"go/types"
+	"regexp"
+	"sort"
+	"strconv"
 	"strings"
 )
 
@@ -309,4 +313,193 @@ func ruleStringEncoder(c *Ctx) {
 		}
 		c.check(okFast, name+"/fast-path-after-scan", fn.Decl.Pos(), "the quote-wrapped copy is returned only after the whole input passed the test", "a return outside the escape test precedes the end of the scan")
 	}
+}
+
+func init() {
+	register(&Rule{ID: "R17.raw-kinds-validated", Props: []string{"C17"}, Floor: 4,
+		Text: "field values whose text Value.JSON() splices into replies verbatim (the kinds whose arm returns the stored data: Number except the three quoted specials, JSON) only ever hold valid JSON: every construction Value{kind: K, data: X} of such a kind in internal/field stores either a constant that is valid JSON (or one of the specials JSON() quotes), or an expression X for which gjson.Valid(X) — of that same X, possibly whitespace-trimmed or passed through pretty.Ugly afterwards — is known true at the construction; the decoder of the packed field list is the one reviewed exception (it rebuilds what the encoder stored)",
+		Run:  ruleRawKindsValidated})
+}
+
+func ruleRawKindsValidated(c *Ctx) {
+	pk := "internal/field"
+	jf := c.Func(pk, "Value", "JSON")
+	if jf == nil {
+		c.und("anchors", 0, "field.Value.JSON not found")
+		return
+	}
+	jinfo := jf.Info()
+	// raw kinds and quoted specials, from the kind switch of JSON()
+	raw := map[string]bool{}
+	specials := map[string]bool{}
+	ast.Inspect(jf.Decl.Body, func(n ast.Node) bool {
+		cc, ok := n.(*ast.CaseClause)
+		if !ok || len(cc.List) == 0 {
+			return true
+		}
+		kindName := ""
+		if id, ok := ast.Unparen(cc.List[0]).(*ast.Ident); ok {
+			if cn, ok := jinfo.ObjectOf(id).(*types.Const); ok && isNamedType(cn.Type(), modPath+"/"+pk, "Kind") {
+				kindName = id.Name
+			}
+		}
+		if kindName == "" {
+			// inner switch on v.Data(): string constants are the specials
+			for _, e := range cc.List {
+				if s, ok := constString(jinfo, e); ok {
+					specials[s] = true
+				}
+			}
+			return true
+		}
+		ast.Inspect(cc, func(m ast.Node) bool {
+			r, ok := m.(*ast.ReturnStmt)
+			if !ok || len(r.Results) != 1 {
+				return true
+			}
+			switch x := ast.Unparen(r.Results[0]).(type) {
+			case *ast.CallExpr:
+				if se, ok := ast.Unparen(x.Fun).(*ast.SelectorExpr); ok && se.Sel.Name == "Data" && len(x.Args) == 0 {
+					raw[kindName] = true
+				}
+			case *ast.SelectorExpr:
+				if x.Sel.Name == "data" {
+					raw[kindName] = true
+				}
+			}
+			return true
+		})
+		return true
+	})
+	if len(raw) == 0 {
+		c.und("raw-kinds", jf.Decl.Pos(), "no kind of Value.JSON returns the stored text verbatim (the rule has nothing to check)")
+		return
+	}
+	var rk []string
+	for k := range raw {
+		rk = append(rk, k)
+	}
+	sort.Strings(rk)
+	c.ok("raw-kinds", jf.Decl.Pos(), true, "kinds spliced verbatim: %v; quoted specials: %d", rk, len(specials))
+	jsonNumber := regexp.MustCompile(`^-?(0|[1-9][0-9]*)(\.[0-9]+)?([eE][+-]?[0-9]+)?$`)
+	n := 0
+	for _, fn := range c.AllFuncs(pk) {
+		info := fn.Info()
+		var fg *FlowGraph
+		ast.Inspect(fn.Decl.Body, func(x ast.Node) bool {
+			cl, ok := x.(*ast.CompositeLit)
+			if !ok || !isNamedType(info.TypeOf(cl), modPath+"/"+pk, "Value") {
+				return true
+			}
+			var kindE, dataE ast.Expr
+			for _, el := range cl.Elts {
+				if kv, ok := el.(*ast.KeyValueExpr); ok {
+					if id, ok := kv.Key.(*ast.Ident); ok {
+						switch id.Name {
+						case "kind":
+							kindE = kv.Value
+						case "data":
+							dataE = kv.Value
+						}
+					}
+				}
+			}
+			if kindE == nil {
+				return true
+			}
+			kid, isConstKind := ast.Unparen(kindE).(*ast.Ident)
+			if !isConstKind {
+				n++
+				// the decoder: kind computed from stored bytes
+				c.ok(funcName(fn.Obj)+"/decoder", cl.Pos(), false, "reviewed exception: rebuilds a value from the packed list the encoder wrote")
+				return true
+			}
+			if !raw[kid.Name] {
+				return true
+			}
+			n++
+			key := fmt.Sprintf("%s/%s@%s", funcName(fn.Obj), kid.Name, exprStr(dataE))
+			if dataE == nil {
+				c.bad(key, cl.Pos(), "a %s value is built without data", kid.Name)
+				return true
+			}
+			if s, ok := constString(info, dataE); ok {
+				valid := specials[s] && kid.Name == "Number" || kid.Name == "Number" && jsonNumber.MatchString(s) || kid.Name != "Number" && json.Valid([]byte(s))
+				c.check(valid, key, cl.Pos(), "constant "+strconv.Quote(s)+" is valid JSON (or a quoted special)", "the constant "+strconv.Quote(s)+" is stored in a "+kid.Name+" value but is not valid JSON: Value.JSON() splices it into replies verbatim")
+				return true
+			}
+			if fg == nil {
+				fg = newFlowGraph(info, fn.Decl.Body)
+			}
+			// strip validity-preserving wrappers: string(pretty.Ugly([]byte(X))), strings.TrimSpace(X)
+			core := ast.Unparen(dataE)
+			for {
+				call, ok := core.(*ast.CallExpr)
+				if !ok || len(call.Args) != 1 {
+					break
+				}
+				if tv, ok := info.Types[call.Fun]; ok && tv.IsType() { // conversion
+					core = ast.Unparen(call.Args[0])
+					continue
+				}
+				f := callee(info, call)
+				if f != nil && (funcKey(f) == "github.com/tidwall/pretty.Ugly" || funcKey(f) == "strings.TrimSpace") {
+					core = ast.Unparen(call.Args[0])
+					continue
+				}
+				break
+			}
+			id, ok := core.(*ast.Ident)
+			loc := fg.LocOfOuter(cl)
+			validated := false
+			var factPos token.Pos
+			if ok && loc.Valid() {
+				for _, f := range fg.DominatingFacts(loc) {
+					call, isCall := ast.Unparen(f.E).(*ast.CallExpr)
+					if !isCall || f.Neg || f.Tag != nil || len(call.Args) != 1 {
+						continue
+					}
+					if g := callee(info, call); g == nil || funcKey(g) != "github.com/tidwall/gjson.Valid" {
+						continue
+					}
+					if aid, ok := ast.Unparen(call.Args[0]).(*ast.Ident); ok && info.ObjectOf(aid) == info.ObjectOf(id) {
+						validated, factPos = true, call.Pos()
+						break
+					}
+				}
+			}
+			// between the test and the construction the variable is only re-assigned by whitespace trimming of itself
+			if validated {
+				ast.Inspect(fn.Decl.Body, func(y ast.Node) bool {
+					as, ok := y.(*ast.AssignStmt)
+					if !ok || as.Pos() < factPos || as.End() > cl.Pos() {
+						return true
+					}
+					for i, l := range as.Lhs {
+						lid, ok := ast.Unparen(l).(*ast.Ident)
+						if !ok || info.ObjectOf(lid) != info.ObjectOf(id) {
+							continue
+						}
+						okTrim := false
+						if i < len(as.Rhs) && len(as.Lhs) == len(as.Rhs) {
+							if call, ok := ast.Unparen(as.Rhs[i]).(*ast.CallExpr); ok && len(call.Args) == 1 {
+								if f := callee(info, call); f != nil && funcKey(f) == "strings.TrimSpace" {
+									if aid, ok := ast.Unparen(call.Args[0]).(*ast.Ident); ok && info.ObjectOf(aid) == info.ObjectOf(id) {
+										okTrim = true
+									}
+								}
+							}
+						}
+						if !okTrim {
+							validated = false
+						}
+					}
+					return true
+				})
+			}
+			c.check(validated, key, cl.Pos(), "gjson.Valid of the stored text is known true here", "the text stored in this "+kid.Name+" value is not the text that was validated with gjson.Valid (or was not validated at all): Value.JSON() splices it into replies verbatim, so an input such as +5 or 0x10 makes every reply that prints the field invalid JSON")
+			return true
+		})
+	}
+	c.stat("raw_kind_constructions", n)
 }
